@@ -214,7 +214,7 @@ def evaluate(case, verbose=False):
         if acall is None:
             if 'array length=self' in case['anns']:
                 stat['unspec'] += 1      # a length that names the instance parameter; pairing is C04's subject
-                loose[id(bcall.parent)] = '*'
+                loose[id(broot)] = '*'
                 continue
             viol.append(('frame', '%s: callable disappeared' % label))
             continue
